@@ -4,6 +4,7 @@
 mod c11;
 mod c12;
 mod c13;
+mod c15;
 mod util;
 
 use simcore::worker::Scenario;
@@ -13,5 +14,6 @@ fn main() {
     scenarios.extend(c11::scenarios());
     scenarios.extend(c12::scenarios());
     scenarios.extend(c13::scenarios());
+    scenarios.extend(c15::scenarios());
     simcore::worker::main(&scenarios)
 }
